@@ -65,12 +65,17 @@ fn mutate(p: &mut Project, t: &mut Tape) -> Option<String> {
 }
 
 pub fn run(mut ctx: Ctx) -> ! {
+    if cfg!(feature = "suppress_key_warnings") {
+        ctx.class("build:suppress_key_warnings");
+    }
     let scratch = Scratch::new("c07");
     let case = |t: &mut Tape| {
         project_case(t, cfg(), CheckOpts::default(), &scratch, Some(&mutate), &|p, st| {
             // >=1 expected warning and >=1 silenced absence (null or inherits) -- or the negative class
             (st.warnings_expected > 0 && (st.defaulted_any > 0) && (!p.inherits.is_empty() || st.defaulted_any > st.warnings_expected))
                 || st.expected_error
+                // suppress build: nothing may be reported although keys are absent / surplus
+                || (cfg!(feature = "suppress_key_warnings") && st.defaulted_any > 0)
         })
     };
     if let Some(path) = ctx.replay.clone() {
@@ -88,7 +93,7 @@ pub fn run(mut ctx: Ctx) -> ! {
          none below an absent group, none for null, one SurplusKey per extra key at a shared level, none for the default locale), \
          the accessible key set equals the default locale's keys, and a kind flip is rejected naming the key. non-trivial = at \
          least one expected diagnostic together with at least one silenced absence, or a kind flip; distinct = project hash",
-        &["the suppress_key_warnings build is not covered by this check (feature-gated build)"],
+        &["the same check runs a second time on a harness build with the suppress_key_warnings feature (no missing / surplus diagnostics at all, same key sets and errors)"],
         20,
     )
 }
